@@ -112,3 +112,17 @@ Definition readme_sections_transport (has_ssl has_ws has_quic : bool) : transpor
   match has_ssl, has_ws with
   | false, false => TTcp | true, false => TTls | false, true => TWs | true, true => TWss
   end.
+
+(* ---- what a configuration must lead to ---------------------------------------------------------- *)
+(* either exactly these sockets (TCP listener, UDP relay socket, QUIC endpoint), or startup stops with an error *)
+Inductive expected := ExpectSockets (tcp udp quic : bool) | ExpectError.
+Definition readme_server_startup (p : protocol) (m : lmode) (has_quic : bool) : expected :=
+  if readme_consistent p m has_quic
+  then let '(t, u, q) := readme_server_listeners p m has_quic in ExpectSockets t u q
+  else ExpectError.
+(* a mode that is not a client mode is an error, not a client that listens on something else (or on nothing) *)
+Definition readme_client_startup (m : lmode) : expected :=
+  match readme_client_listeners m with Some (t, u) => ExpectSockets t u false | None => ExpectError end.
+(* the Ciphers table: a cipher not ticked for the protocol is an error; Trojan has no cipher column *)
+Definition readme_cipher_allowed (p : protocol) (d : doc_cipher) : bool :=
+  match p with PShadowsocks => dc_shadowsocks d | PVMess => dc_vmess d | PTrojan => true end.
